@@ -26,6 +26,7 @@ structure ReadOkAt (n : Nat) : Prop where
     ReadSpec (readItems env n item es.length (es.flatten ++ rest) acc)
       ((mapFit (fun v => ofAvro env m item v (Codec.zero env item)) vs).bind fun gs => .ok (acc ++ gs)) rest
   readArrayBlocks : ∀ m item s bl vs es bs rest acc, CodecFor item s → ItemsEnc s vs es → encBlocks bl es = some bs →
+    acc.length + vs.length < 2 ^ 63 →
     ReadSpec (readArrayBlocks env n item (bs ++ rest) acc)
       ((mapFit (fun v => ofAvro env m item v (Codec.zero env item)) vs).bind fun gs => .ok (acc ++ gs)) rest
   readMapItems : ∀ m val s kvs es rest ks0 vs0, CodecFor val s → EntriesEnc s kvs es →
@@ -160,8 +161,11 @@ theorem readOk_read (n : Nat) (ih : ReadOkAt env n) :
     obtain ⟨bl, subs, vs, encs, rfl, rfl, hi, hb⟩ := encode_array_inv he
     cases dst <;> simp only [read, ofAvro] <;> (try exact ReadSpec.illtyped _ _)
     rename_i items
+    by_cases hbig : items.length + vs.length ≥ 2 ^ 63
+    · simp only [hbig, if_true]; exact ReadSpec.illtyped _ _
+    simp only [hbig, if_false]
     simp only [Outcome.bind_eq, Outcome.pure_eq, Fit.bind_eq, Fit.pure_eq]
-    have := ih.readArrayBlocks m _ _ bl vs encs bs rest items hitem (encodeItems_inv hi) hb
+    have := ih.readArrayBlocks m _ _ bl vs encs bs rest items hitem (encodeItems_inv hi) hb (by omega)
     have h2 := ReadSpec.bind (k := fun x => Outcome.ok (GoVal.slice x.1, x.2)) (k' := fun l => Fit.ok (GoVal.slice l)) (rest := rest) this
       (fun g _ => ReadSpec.ok _ _)
     rw [Fit.bind_assoc] at h2
@@ -388,9 +392,10 @@ theorem readOk_readItems (n : Nat) (ih : ReadOkAt env n) :
 
 theorem readOk_readArrayBlocks (n : Nat) (ih : ReadOkAt env n) :
     ∀ m item s bl vs es bs rest acc, CodecFor item s → ItemsEnc s vs es → encBlocks bl es = some bs →
+    acc.length + vs.length < 2 ^ 63 →
     ReadSpec (readArrayBlocks env (n + 1) item (bs ++ rest) acc)
       ((mapFit (fun v => ofAvro env m item v (Codec.zero env item)) vs).bind fun gs => .ok (acc ++ gs)) rest := by
-  intro m item s bl vs es bs rest acc hitem henc hb
+  intro m item s bl vs es bs rest acc hitem henc hb hfits
   cases bl with
   | nil =>
     obtain ⟨rfl, rfl⟩ := encBlocks_nil_inv hb
@@ -410,24 +415,26 @@ theorem readOk_readArrayBlocks (n : Nat) (ih : ReadOkAt env n) :
     -- the expected value, split at the block boundary
     rw [hsplit, mapFit_append, Fit.bind_assoc]
     -- the header
+    have hkv : k ≤ vs.length := by omega
     have hdr : ∀ tail : Bytes,
-        (blockCount (if sized then -(k : Int) else (k : Int))
-          ((if sized then writeVarint ((es.take k).flatten.length : Nat) else []) ++ tail)) = .ok (k, tail) := by
+        (arrayBlockCount (if sized then -(k : Int) else (k : Int))
+          ((if sized then writeVarint ((es.take k).flatten.length : Nat) else []) ++ tail) acc.length) = .ok (k, tail) := by
       intro tail
-      unfold blockCount
+      unfold arrayBlockCount
+      have hr : ¬ ((k : Int) < 0 ∨ (k : Int) > 2 ^ 63 - 1 - (acc.length : Int)) := by omega
       cases sized with
       | true =>
         have h2 : (-(k : Int) < 0) := by omega
-        simp only [if_true, h2, Outcome.bind_eq, Outcome.pure_eq]
+        simp only [if_true, h2]
         rw [rdVarint_write _ (inRange_of_nat_lt hbody63)]
         simp only [Outcome.bind_ok']
         have hw : wrap64 (- -(k : Int)) = k := by unfold wrap64; omega
-        rw [hw]
-        have h3 : ¬ ((k : Int) < 0) := by omega
-        simp [h3]
+        rw [hw, if_neg hr]; simp
       | false =>
         have h2 : ¬ ((k : Int) < 0) := by omega
-        simp [h2]
+        have hr' : ¬ (False ∨ (k : Int) > 2 ^ 63 - 1 - (acc.length : Int)) := fun h => hr (Or.inr (h.resolve_left id))
+        simp only [Bool.false_eq_true, if_false, h2, List.nil_append, Outcome.bind_ok']
+        rw [if_neg hr']; simp
     simp only [readArrayBlocks, Outcome.bind_eq, Outcome.pure_eq]
     have hcount : rdVarint ((if sized then writeVarint (-(k : Int)) ++ writeVarint ((es.take k).flatten.length : Nat) else writeVarint (k : Int)) ++
         (es.take k).flatten ++ rest' ++ rest) =
@@ -452,7 +459,8 @@ theorem readOk_readArrayBlocks (n : Nat) (ih : ReadOkAt env n) :
       rw [hga] at h1; simp only [Fit.bind_ok'] at h1 ⊢
       rcases h1 with h | h
       · rw [h]; simp only [Outcome.bind_ok']
-        have h2 := ih.readArrayBlocks m item s bl _ _ rest' rest (acc ++ ga) hitem hdrop hrest
+        have hgal : ga.length = (vs.take k).length := mapFit_length _ _ _ hga
+        have h2 := ih.readArrayBlocks m item s bl _ _ rest' rest (acc ++ ga) hitem hdrop hrest (by simp [hgal]; omega)
         rw [Fit.bind_assoc]
         simp only [Fit.bind_ok', List.append_assoc] at h2 ⊢
         exact h2
